@@ -655,3 +655,112 @@ func CallbackHistory(r *hx.Rng, tier string) []hx.Zs {
 	}
 	return h
 }
+
+// OpParArrive encodes "d arrives on the connections ps at once, racing with the registration of
+// callback late (0 = none, cb+1) for d's reference on d's destination; then once more on pf".
+func OpParArrive(ps []int64, d Dgram, late, pf int64) hx.Zs {
+	z := hx.Zs{12, late, pf, int64(len(ps))}
+	z = append(z, ps...)
+	return append(z, OpInbound(0, d)[2:]...)
+}
+
+// ParHistory: overlapping arrivals.  Four peers announce the same features; every round uses a
+// fresh counter on one local feature: 1-6 callbacks (ids 0..6) are registered for it, then the
+// same result or accepted reply referencing the counter arrives on 2-4 connections at once,
+// mostly racing with the registration of callback 7 for that counter, and once more afterwards.
+// Whatever the interleaving, every registered callback is invoked exactly once and every result
+// callback once per arrival (Proofs/CallbackProofs.par_any_interleaving), so the operations are
+// well posed: fresh late callback, delivering closing arrival, result or data reply.
+func ParHistory(r *hx.Rng, tier string) []hx.Zs {
+	e := []int64{1}
+	h := []hx.Zs{OpAddLocalEntity(e), OpAddLocalFeature(e, 1, 0), OpAddLocalFeature(e, 2, 1)}
+	targets := []LFeat{{Ent: e, Id: 1, Type: 1, Role: 0}, {Ent: e, Id: 2, Type: 2, Role: 1}, NMLocal, {Ent: []int64{0}, Id: 1, Type: 6, Role: 1}}
+	var peers []*Peer
+	for k := int64(1); k <= 4; k++ {
+		p := &Peer{Ski: k, Feats: []RFeat{{Ent: e, Id: 1, Type: 1, Role: 1}, {Ent: e, Id: 2, Type: 2, Role: 0}}}
+		peers = append(peers, p)
+		h = append(h, p.Announce()...)
+	}
+	for _, t := range targets {
+		for k := 0; k < r.Pick(3, 2, 1); k++ {
+			h = append(h, OpAddResultCb(t.Ent, t.Id, int64(r.Intn(NCallbacks))))
+		}
+	}
+	gone := map[int64]bool{}
+	rounds := r.Range(15, 35)
+	if tier == "thorough" {
+		rounds = r.Range(20, 80)
+	}
+	for i := 0; i < rounds; i++ {
+		ctr := int64(1000 + i)
+		t := targets[r.Intn(len(targets))]
+		// early callbacks, distinct ids out of 0..6
+		perm := []int64{0, 1, 2, 3, 4, 5, 6}
+		for j := len(perm) - 1; j > 0; j-- {
+			k := r.Intn(j + 1)
+			perm[j], perm[k] = perm[k], perm[j]
+		}
+		for _, cb := range perm[:r.Range(1, 6)] {
+			h = append(h, OpAddRespCb(t.Ent, t.Id, ctr, cb))
+		}
+		// the arrival: from the same remote feature of every peer, device part omitted
+		src := RFeat{Ent: e, Id: 1, Type: 1, Role: 1}
+		d := Dgram{Src: FAddr{Ent: src.Ent, Feat: src.Id + 1}, Dst: t.Addr(int64(r.Intn(2))), Ctr: int64(5000 + i), Ref: ctr + 1}
+		accepted := true
+		switch r.Pick(5, 4, 1) {
+		case 0:
+			d.Result = true
+			d.Err = int64(r.Intn(4))
+		case 1:
+			d.Cls = 1
+			if t.Type == 5 {
+				d.Src = FAddr{Ent: []int64{0}, Feat: 1}
+				d.Pl = Payload{Kind: 2, V: int64(r.Range(1, 900))}
+			} else {
+				d.Pl = Payload{Kind: 0, Fn: FnsOfType(1)[r.Intn(6)], V: int64(r.Range(1, 900))}
+			}
+		default:
+			// a reply the replica cannot take (or node management does not implement): nobody is invoked
+			d.Cls = 1
+			d.Pl = Payload{Kind: 0, Fn: 17, V: 3}
+			accepted = false
+		}
+		// 2-4 distinct peers at once
+		order := []int{0, 1, 2, 3}
+		for j := 3; j > 0; j-- {
+			k := r.Intn(j + 1)
+			order[j], order[k] = order[k], order[j]
+		}
+		var ps []int64
+		for _, k := range order[:r.Range(2, 4)] {
+			ps = append(ps, peers[k].Ski)
+		}
+		var conn []int64
+		for _, p := range peers {
+			if !gone[p.Ski] {
+				conn = append(conn, p.Ski)
+			}
+		}
+		pf := conn[r.Intn(len(conn))]
+		late := int64(0)
+		if accepted && r.Chance(3, 4) {
+			late = 8 // callback 7
+		}
+		h = append(h, OpParArrive(ps, d, late, pf))
+		// now and then a peer leaves or comes back
+		if r.Chance(1, 12) && len(conn) > 2 {
+			p := conn[r.Intn(len(conn))]
+			h = append(h, OpDisconnect(p))
+			gone[p] = true
+		} else if r.Chance(1, 10) {
+			for _, p := range peers {
+				if gone[p.Ski] {
+					h = append(h, p.Announce()...)
+					gone[p.Ski] = false
+					break
+				}
+			}
+		}
+	}
+	return h
+}
